@@ -109,7 +109,10 @@ PROPS = {
         "lean_modules": ["RdestModel.Props.C14"],
         "cases": {"quick": 1500, "thorough": 40000},
         "rule": "operation histories (5..80 ops) on the real Session through the hooks: add peer (up to 25 live), interested / not-interested, "
-                "bitfield (real RecvBitfield command, reply observed), kill, rotation = change_conn_state with generated rate vectors (ties "
+                "bitfield (real RecvBitfield command, reply observed), kill, timer tick = the real timeout_change_conn_state with a given round, seeder "
+                "flag and per-peer rates (pairwise distinct, some not reported yet; broadcast observed; every admissible optimistic pick tried by the "
+                "model; one history in eight is a full house of waiting peers plus fresh unchoked connections without rates), "
+                "rotation = change_conn_state with generated rate vectors (ties "
                 "included, random vector order) and an admissible new_optimistic choice read from the implementation's own snapshot; after EVERY "
                 "op the full snapshot (am_choked, interested, optimistic per peer), for rotations also the sorted order and the broadcast "
                 "am_choked_map, are compared with the model; oracle T1 (slot bounds) on every snapshot, T2/T3 on every rotation; "
@@ -206,7 +209,9 @@ PROPS = {
                 "integer; peers missing, compact string form, list of 0..5 entries each with one of 14 defects (ip/peer id/port missing, wrong type, "
                 "non-UTF-8 ip, 19- and 21-byte ids, negative port, ports 0..2^40, non-dictionary entries, nested list) in shuffled key order; a value or "
                 "a failing dictionary in front; truncations; random strings over the bencode alphabet; compared: error kind or the ordered "
-                "(address:port, id) list of TrackerResp::peers() with the model. One case per run (four in the thorough tier: k = 0, 1, 3 and 12 "
+                "(address:port, id) list of TrackerResp::peers() with the model; one case in sixteen is `fetch`: the real TrackerClient::run answered on "
+                "the loopback with a status in {200,201,202,400,403,404,500,503} and such a body (two thirds parse; peer ids are random bytes), the "
+                "first command the task sends to the manager compared with exchange(status, body). One case per run (four in the thorough tier: k = 0, 1, 3 and 12 "
                 "listed peers) is e2e: the real Session::run in a child process against a loopback tracker that fails k times (HTTP 500, garbage, failure "
                 "reason, non-UTF-8 reason, connection closed) before a good reply; observed: number of announces, whether a new connection to the "
                 "listening port gets its handshake answered while announces fail, and handshakes arriving at the listed fake peers; compared with "
